@@ -519,7 +519,7 @@ fn process_val_zoom__level(zoom_item: &mut ZoomItem, options: &BBIWriteOptions, 
                 }
             }
             // Set where we would start for next time
-            add_start = add_end;
+            add_start = max_u32(add_end, current_val.start);
         }
         assert((zoom_item.records.len()) != (options.items_per_slot as usize));
     
